@@ -601,23 +601,13 @@ func runC04(c *Ctx) {
 			rc := callsWhere(gor, func(cc *ssa.CallCommon) bool { return cc.StaticCallee() == recv })[0].(*ssa.Call)
 			// broadcastErr on the err != nil branch, for every non-nil error
 			good := false
-			for _, r := range *rc.Referrers() {
-				b, ok := r.(*ssa.BinOp)
-				if !ok || b.Op != token.NEQ || !isNilConst(b.Y) {
-					continue
-				}
-				for _, rr := range *b.Referrers() {
-					iff, ok := rr.(*ssa.If)
-					if !ok {
-						continue
-					}
-					// the true successor must call broadcastErr before returning on every path
-					if !reachFromBlock(iff.Block().Succs[0], isReturn, func(x ssa.Instruction) bool {
-						cc := callOf(x)
-						return cc != nil && cc.StaticCallee() == bcast
-					}) {
-						good = true
-					}
+			for _, nt := range nilTests(rc) {
+				// the side with an error must call broadcastErr before returning on every path
+				if !reachFromBlock(nt.nonNil, isReturn, func(x ssa.Instruction) bool {
+					cc := callOf(x)
+					return cc != nil && cc.StaticCallee() == bcast
+				}) {
+					good = true
 				}
 			}
 			// unconditional broadcast is fine too
@@ -1492,14 +1482,8 @@ func checkWriteFailureLatched(c *Ctx, rule string) {
 				if !ok || ex.Index != 1 {
 					continue
 				}
-				for _, rr := range *ex.Referrers() {
-					if bo, ok := rr.(*ssa.BinOp); ok && bo.Op == token.NEQ && isNilConst(bo.Y) {
-						for _, r3 := range *bo.Referrers() {
-							if iff, ok := r3.(*ssa.If); ok {
-								failEdge = iff.Block().Succs[0]
-							}
-						}
-					}
+				for _, nt := range nilTests(ex) {
+					failEdge = nt.nonNil
 				}
 			}
 			stores, closes := false, false
